@@ -247,4 +247,6 @@ func runC14(e *Engine, r *Report) {
 	}
 	// BlockWriter hands out its internal buffer only to onNewBlock synchronously: the callee must copy (above)
 	_ = strings.Contains
+	// deferred close/sync errors reach the caller (generic.go)
+	ruleDeferredErr(e, r, 1, "internal/rsm")
 }
